@@ -46,6 +46,35 @@ class Eval:
         self.idx, self.pkg = idx, pkg_prefix
         self.problems = []
 
+    def mutates(self, mname, depth=0, seen=None):
+        """does some method of that name in the package assign an attribute of self (directly, in place, or through another self-method)?"""
+        seen = seen if seen is not None else set()
+        if mname in seen or depth > 2:
+            return False
+        seen.add(mname)
+        for m in self.idx.lib_modules():
+            if not m.name.startswith(self.pkg):
+                continue
+            for ci in m.classes.values():
+                meth = ci.methods.get(mname)
+                if meth is None or mname.startswith("__"):
+                    continue
+                for n in ast.walk(meth.node):
+                    if isinstance(n, (ast.Assign, ast.AugAssign)):
+                        tgts = n.targets if isinstance(n, ast.Assign) else [n.target]
+                        for t in tgts:
+                            for x in ast.walk(t):
+                                if isinstance(x, ast.Attribute) and isinstance(x.value, ast.Name) and x.value.id == "self" and isinstance(x.ctx, ast.Store):
+                                    # a lazily filled cache (`if self._x is None: self._x = ...`) is not a change of state
+                                    if not x.attr.startswith("_"):
+                                        return True
+                                if isinstance(x, ast.Subscript) and isinstance(x.ctx, ast.Store) and isinstance(x.value, ast.Attribute) and u(x.value.value) == "self":
+                                    return True
+                    if isinstance(n, ast.Call) and isinstance(n.func, ast.Attribute) and isinstance(n.func.value, ast.Name) and n.func.value.id == "self" \
+                            and self.mutates(n.func.attr, depth + 1, seen):
+                        return True
+        return False
+
     def run(self, f, args, depth=0):
         """list of returned values (one per return statement reached) of f called with the given values"""
         params = [a.arg for a in f.node.args.args]
@@ -66,7 +95,11 @@ class Eval:
     def block(self, stmts, env, f, rets, depth):
         for st in stmts:
             if isinstance(st, ast.Return):
-                rets.append(self.ev(st.value, env, f, depth) if st.value is not None else ("const", None))
+                v_ = self.ev(st.value, env, f, depth) if st.value is not None else ("const", None)
+
+                def flat(x):
+                    return flat(x[1]) + flat(x[2]) if isinstance(x, tuple) and x[:1] == ("alt",) else [x]
+                rets.extend(flat(v_))
                 return True
             if isinstance(st, ast.Assign):
                 v = self.ev(st.value, env, f, depth)
@@ -84,7 +117,8 @@ class Eval:
                     env.update(src[0])
                 else:
                     for k in set(e1) | set(e2):
-                        env[k] = e1.get(k) if e1.get(k) == e2.get(k) else ("unk", k)
+                        a_, b_ = e1.get(k), e2.get(k)
+                        env[k] = a_ if a_ == b_ else (("alt", a_, b_) if a_ is not None and b_ is not None else ("unk", k))
             elif isinstance(st, (ast.For, ast.While)):
                 for n in ast.walk(st):
                     if isinstance(n, ast.Name) and isinstance(n.ctx, ast.Store):
@@ -125,6 +159,19 @@ class Eval:
                         return neg(y)
             if isinstance(e.op, ast.MatMult):
                 return mk_apply(a, b)
+            if isinstance(e.op, ast.Add):
+                # tuple concatenation, distributed over values that differ between the two arms of an earlier `if`
+                def cat(x, y):
+                    if isinstance(x, tuple) and x[:1] == ("alt",):
+                        return ("alt", cat(x[1], y), cat(x[2], y))
+                    if isinstance(y, tuple) and y[:1] == ("alt",):
+                        return ("alt", cat(x, y[1]), cat(x, y[2]))
+                    if isinstance(x, tuple) and isinstance(y, tuple) and x[:1] == ("tuple",) and y[:1] == ("tuple",):
+                        return ("tuple", x[1] + y[1])
+                    return None
+                c_ = cat(a, b)
+                if c_ is not None:
+                    return c_
             return ("op", type(e.op).__name__, a, b)
         if isinstance(e, (ast.Tuple, ast.List)):
             return ("tuple", tuple(self.ev(x, env, f, depth) for x in e.elts))
@@ -155,6 +202,13 @@ class Eval:
                 return neg(args[0])
             if short in ("asarray", "array", "ascontiguousarray", "copy") and len(args) == 1:
                 return args[0]
+            # a method that re-assigns attributes of its receiver (directly or through another method of the class) leaves the receiver in a NEW state:
+            # every name bound to it denotes that state from now on
+            if isinstance(e.func, ast.Attribute) and not name.startswith(("np.", "numpy.", "math.")) and self.mutates(short):
+                recv = self.ev(e.func.value, env, f, depth)
+                for k_, v_ in list(env.items()):
+                    if v_ == recv:
+                        env[k_] = ("mutated", recv, short)
             callee = self.idx.resolve_call(f.module, e, f.cls)
             if isinstance(callee, FuncInfo) and callee.module.name.startswith(self.pkg) and depth < 4 and callee.cls is None and not e.keywords:
                 rets = self.run(callee, args, depth + 1)
@@ -191,6 +245,10 @@ def show(v, names=None):
         return v[1]
     if k == "T":
         return show(v[1], names) + ".T"
+    if k == "mutated":
+        return "%s after .%s()" % (show(v[1], names), v[2])
+    if k == "alt":
+        return "%s | %s" % (show(v[1], names), show(v[2], names))
     if k == "call":
         return "%s(%s)" % (v[1], ", ".join(show(x, names) for x in v[2]))
     if k == "tuple":
